@@ -101,6 +101,8 @@ GHOST static void gc_quiescent_check(void) {
 
 static void cond_setup(void) {
   if (!cfg_get("cond", 0)) return;
+  RT_DIRTY(cm);
+  RT_DIRTY(cv);
   fiber_mutex_init(&cm);
   fiber_cond_init(&cv);
   vs_watch(&cv, sizeof cv);
